@@ -47,7 +47,7 @@ ASSUMPTIONS = [
     "lxml, CPython io buffering are trusted; SimFS is the stub for the raw file layer",
 ]
 COMPONENTS = {"real": ["partitura.io.exportmusicxml", "partitura.io.importmusicxml", "partitura.io.load_score", "partitura.score", "partitura.directions", "lxml", "CPython io.Buffered*/TextIOWrapper, zipfile sniffing"], "stub": ["raw file layer (SimFS)", "HTTP client (fake urlopen peer)", "tempfile naming", "independent MusicXML interpreter (model/ref_musicxml.py) as peer reader"]}
-PROBES = ("fault_in_flight", "acknowledged_after_overwrite", "reader_on_torn_file", "torn_file_accepted", "short_reads", "url_route", "filelike_route", "mid_measure_divs_change", "tie_over_barline", "unequal_chord", "retry_after_failed_save", "zip_sniff")
+PROBES = ("load_returned_despite_read_fault", "fault_in_flight", "acknowledged_after_overwrite", "reader_on_torn_file", "torn_file_accepted", "short_reads", "url_route", "filelike_route", "mid_measure_divs_change", "tie_over_barline", "unequal_chord", "retry_after_failed_save", "zip_sniff")
 
 ROUTES_W = ("path", "path", "filelike", "return")
 ROUTES_R = ("path", "load_score", "filelike", "url", "path", "mxl")
@@ -410,7 +410,13 @@ def execute(case, keep_log=False):
                 for kk, v in fired.items():
                     res.fault(kk, v)
                 faulted = bool(fired)
-                if state == "ref" and not faulted:
+                # an injected read error may make the load fail; if the load nevertheless returns, it must
+                # return the right score ("may fail, never return wrong data") - except when the peer cut
+                # the body short (F9), where other bytes arrived
+                returned_despite = faulted and outcome == "loaded" and "F9" not in fired
+                if returned_despite:
+                    res.probe("load_returned_despite_read_fault")
+                if state == "ref" and (not faulted or returned_despite):
                     if outcome != "loaded":
                         res.violation("D1-durable", "load", "an acknowledged file could not be loaded over route %s: %s" % (route, outcome), site=route)
                     else:
